@@ -137,6 +137,11 @@ pub fn check_migrate(pre: &World, post: &World, msg: &Value, out: &Outcome, st: 
             if exp != c1 && valid != Parse3::No {
                 viol(viols, "C14", "overrides", "configuration after migration is not the old one with exactly the requested overrides", format!("expected {:?} got {:?}", exp, c1));
             }
+            // a message the oracle calls invalid (e.g. a blank approver entry) need not be accepted; when it is,
+            // a supplied approver list is still an override that must be applied exactly as supplied
+            if valid == Parse3::No && msg.get("approvers").map_or(false, |a| a.is_array()) && exp.approvers != c1.approvers {
+                viol(viols, "C14", "overrides", "approver list after migration is not the list supplied", format!("supplied {} got {:?}", msg["approvers"], c1.approvers));
+            }
         }
         (a, b) => viol(viols, "C14", "overrides", "configuration unreadable around a migration", format!("{:?} {:?}", a.is_some(), b.is_some())),
     }
